@@ -40,7 +40,8 @@ type ECall struct {
 type EQuant struct {
 	Forall bool
 	Var    string
-	Lo, Hi Expr // nil when unbounded
+	VType  string // "" (int) or "string": sort of the bound variable ("forall p string :: ...")
+	Lo, Hi Expr   // nil when unbounded
 	Body   Expr
 }
 type ECond struct{ C, A, B Expr }
@@ -253,6 +254,12 @@ func (ps *parser) unary() (Expr, error) {
 			return nil, fmt.Errorf("quantifier variable expected at %d in %q", v.pos, ps.src)
 		}
 		q := &EQuant{Forall: t.text == "forall", Var: v.text}
+		if ps.peek().kind == "ident" && (ps.peek().text == "string" || ps.peek().text == "int") {
+			// typed binder: "forall p string :: body" (unbounded only)
+			if ty := ps.next().text; ty == "string" {
+				q.VType = ty
+			}
+		}
 		if ps.peek().kind == "ident" && ps.peek().text == "in" {
 			ps.next()
 			lo, err := ps.expr(7)
